@@ -1,7 +1,7 @@
 use nom::{
     branch::alt,
     bytes::complete::tag,
-    character::complete::char,
+    character::complete::{char, i128},
     combinator::{into, opt},
     multi::many0,
     sequence::{separated_pair, terminated},
@@ -92,10 +92,17 @@ pub fn choice(input: Input<'_>) -> ParserResult<'_, ASN1Type> {
                             |extension| vec![extension],
                         ),
                         terminated(
-                            in_brackets(in_brackets(many1(terminated(
-                                skip_ws_and_comments(choice_option),
-                                optional_comma,
-                            )))),
+                            in_brackets(in_brackets(preceded(
+                                // VersionNumber ::= empty | number ":"
+                                opt(pair(
+                                    skip_ws_and_comments(i128),
+                                    skip_ws_and_comments(char(':')),
+                                )),
+                                many1(terminated(
+                                    skip_ws_and_comments(choice_option),
+                                    optional_comma,
+                                )),
+                            ))),
                             optional_comma,
                         ),
                     ))),
